@@ -62,7 +62,10 @@ CHECKS["C24"] = _c("writer/reader type-table agreement over protomap's type swit
 CHECKS["C22"] = _c("role analysis of DiffSetRequest (argument-order-only A/B), per-phase key/effect analysis of minimalSetRequestIntent, single-owner rule for key-predicate formatting, JSON-form table of protoLeafToJSON",
     "Decides that A/B roles follow argument order only, common entries leave both sides, comparison is reflect.DeepEqual, every intent key is fullPathStr(one prefix, element path) via ygot.PathToString with no second formatter of key predicates, replace = delete + leaves and update = leaves, a leaf replace drops its delete with and without schema, duplicates conflict only on !DeepEqual, and proto leaf values have exactly encoding/json's forms (never a nil slice).")
 
-for _p in ["C15","C25","C26","C27","C29","C33","C34"]:
+CHECKS["C25"] = _c("commutativity classification of every range-over-map body in the generator packages over an interprocedural mod-effect summary, frozen table of hand-reviewed loops, sorted-sink and ambient-state who-may-call checks",
+    "Decides that every range over a map in ygen/gogen/protogen/ypathgen/genutil/generator has effects that commute across iterations or is one of the reviewed loops with exactly its reviewed order-sensitive effects, that unordered collections are sorted where they reach rendered output, and that no time/random/environment source is reachable from generation.")
+
+for _p in ["C15","C26","C27","C29","C33","C34"]:
     NA[_p] = NOT_YET
 NA["C10"] = "quantifies over runtime trees, paths and payloads; its structural clauses (key and value tables) are decided under C16/C18 and the frame clause has no static handle here (DESIGN.md §7)"
 NA["C23"] = "classification of runtime leaves after single-leaf edits; no clause visible in code shape beyond those claimed under C22 (DESIGN.md §7)"
